@@ -1,9 +1,9 @@
 (* Extract.v - extraction of the executable model for the correspondence check.
    ExtrOcamlBasic only; N / Z / nat / positive stay Coq datatypes. No Extract Constant, no Extract Inductive here. *)
 From Coq Require Import Extraction ExtrOcamlBasic.
-From DOS Require Import Base Merge Chunks PickPack Compress Streams Store MonoStep Programs ImportPlan Layout Lookup LookupFd Backup Totals.
+From DOS Require Import Base Merge Chunks PickPack Compress Streams Store MonoStep Programs ImportPlan Layout Lookup LookupFd Backup Totals ValidateScan.
 Extraction Language OCaml.
 Set Extraction Optimize.
 Extraction "extracted/model.ml" Merge.dws Merge.merge_sorted Chunks.chunks Chunks.paging
   Streams.bio_step Streams.fio_step Streams.por_init Streams.por_step Streams.por_step0 Streams.zsd_init Streams.zsd_step Streams.run_ops
-  Store.monitor Store.run_events Store.inv_b Store.preserved_b Store.power_loss Store.stored Store.local0 MonoStep.all_ok_b MonoStep.c13_all_b PickPack.pick PickPack.override Compress.estimate Programs.p_add_loose Programs.p_pack_one Programs.p_clean Programs.p_delete Programs.p_repack_one Programs.p_vacuum Programs.p_add_to_pack Programs.p_import ImportPlan.plan Layout.segs Lookup.lookup_bulk LookupFd.lookup_events Backup.backup_phases Totals.totals_of.
+  Store.monitor Store.run_events Store.inv_b Store.preserved_b Store.power_loss Store.stored Store.local0 MonoStep.all_ok_b MonoStep.c13_all_b PickPack.pick PickPack.override Compress.estimate Programs.p_add_loose Programs.p_pack_one Programs.p_clean Programs.p_delete Programs.p_repack_one Programs.p_vacuum Programs.p_add_to_pack Programs.p_import ImportPlan.plan Layout.segs Lookup.lookup_bulk LookupFd.lookup_events Backup.backup_phases Totals.totals_of ValidateScan.validate_f.
